@@ -85,9 +85,42 @@ def extract_rules(ctx: Ctx):
     plain = [e.value for e in t.comparators[0].elts]
     if len(node.body) != 1 or len(node.orelse) != 1:
         raise ValueError("unsupported normalisation branch bodies")
-    b0, b1 = ast.unparse(node.body[0]), ast.unparse(node.orelse[0])
-    if b0 != "super().__init__(points, weights)" or b1 not in ("super().__init__(points, weights * 4 * np.pi)",):
-        raise ValueError(f"unsupported normalisation calls: {b0!r} / {b1!r}")
+
+    def strip_copy(e):
+        # x.copy() is value-transparent
+        if isinstance(e, ast.Call) and isinstance(e.func, ast.Attribute) and e.func.attr == "copy" and not e.args and not e.keywords:
+            return e.func.value
+        return e
+
+    def factor(e):
+        """e as (rational c, power of pi k, number of `weights` factors) for a product of weights, numbers and np.pi."""
+        e = strip_copy(e)
+        if isinstance(e, ast.Name) and e.id == "weights":
+            return (Fraction(1), 0, 1)
+        if isinstance(e, ast.Constant) and isinstance(e.value, (int, float)) and not isinstance(e.value, bool):
+            return (Fraction(e.value), 0, 0)
+        if isinstance(e, ast.Attribute) and ast.unparse(e) in ("np.pi", "numpy.pi", "math.pi"):
+            return (Fraction(1), 1, 0)
+        if isinstance(e, ast.BinOp) and isinstance(e.op, ast.Mult):
+            a, b = factor(e.left), factor(e.right)
+            return (a[0] * b[0], a[1] + b[1], a[2] + b[2])
+        raise ValueError(f"unsupported weight expression {ast.unparse(e)!r}")
+
+    def call_mode(stmt):
+        c = stmt.value if isinstance(stmt, ast.Expr) else None
+        if not (isinstance(c, ast.Call) and ast.unparse(c.func) == "super().__init__" and len(c.args) == 2 and not c.keywords):
+            raise ValueError(f"unsupported normalisation call {ast.unparse(stmt)!r}")
+        p0 = strip_copy(c.args[0])
+        if not (isinstance(p0, ast.Name) and p0.id == "points"):
+            raise ValueError(f"unsupported points argument {ast.unparse(c.args[0])!r}")
+        f = factor(c.args[1])
+        if f == (Fraction(1), 0, 1):
+            return "AsStored"
+        if f == (Fraction(4), 1, 1):
+            return "Times4Pi"
+        raise ValueError(f"weights are scaled by {f[0]} * pi^{f[1]} (x weights^{f[2]}): neither 1 nor 4 pi")
+
+    mode_in, mode_out = call_mode(node.body[0]), call_mode(node.orelse[0])
     # weights / points must reach the branch unmodified: assigned exactly twice (load or cache)
     assigned = [ast.unparse(n) for n in ast.walk(fn["__init__"]) if isinstance(n, ast.Assign)
                 and any("weights" in ast.unparse(t_) or "points" in ast.unparse(t_) for t_ in n.targets)]
@@ -103,25 +136,34 @@ def extract_rules(ctx: Ctx):
             fp = [b for b in n.body if isinstance(b, ast.Assign) and ast.unparse(b.targets[0]) == "file_path"]
             if isinstance(m, ast.Constant) and len(fp) == 1 and isinstance(fp[0].value, ast.Constant):
                 dirs[m.value] = fp[0].value.value
-    tail = [ast.unparse(s) for s in ld.body[-4:]]
+    class _NoCopy(ast.NodeTransformer):  # x.copy() / np.copy(x) / np.array(x) / np.asarray(x) are value-transparent
+        def visit_Call(self, n):
+            self.generic_visit(n)
+            if isinstance(n.func, ast.Attribute) and n.func.attr == "copy" and not n.args and not n.keywords:
+                return n.func.value
+            if ast.unparse(n.func) in ("np.copy", "np.array", "np.asarray") and len(n.args) == 1 and not n.keywords:
+                return n.args[0]
+            return n
+
+    tail = [ast.unparse(_NoCopy().visit(ast.parse(ast.unparse(s)).body[0])) for s in ld.body[-4:]]
     expect_tail = ["filename = f'{method}_{degree}_{size}.npz'",
                    "data = np.load(files(file_path).joinpath(filename))",
                    "if len(data['weights']) == 1:\n    return (data['points'], np.ones(len(data['points'])) * data['weights'])",
                    "return (data['points'], data['weights'])"]
     if tail != expect_tail:
         raise ValueError(f"unsupported tail of _load_precomputed_angular_grid: {tail}")
-    return plain, dirs, units
+    return plain, (mode_in, mode_out), dirs, units
 
 
 def gen_rules(ctx: Ctx):
-    plain, dirs, units = extract_rules(ctx)
+    plain, (mode_in, mode_out), dirs, units = extract_rules(ctx)
     meths = [m for m, _, _, _ in c12.METHODS]
     for m, _, _, d in c12.METHODS:
         if dirs.get(m) != f"grid.data.{d}":
             raise ValueError(f"loader directory of method {m} is {dirs.get(m)!r}, expected grid.data.{d}")
     if not set(plain) <= set(meths):
         raise ValueError(f"normalisation branch names unknown methods {plain}")
-    mode = {m: ("AsStored" if m in plain else "Times4Pi") for m in meths}
+    mode = {m: (mode_in if m in plain else mode_out) for m in meths}
     L = ["(* generated from AngularGrid.__init__ / _load_precomputed_angular_grid on every run; do not edit *)",
          "From P Require Import C02_model."]
     for m in meths:
@@ -269,6 +311,26 @@ def exact_value(points, weights, l, m):
     bad = k2 > PI_HI * tol2          # certainly (value)^2 = k2/pi > tol^2
     ok = k2 <= PI_LO * tol2
     return val, (True if bad else (False if ok else None))
+
+
+def model_predicts(v, p, w, mode_m, size):
+    """Does the hand model (file content, broadcast, normalisation) itself violate the quantity found on the implementation?
+    Exact rational arithmetic; only then is a kernel refutation of the model generated."""
+    tol = Fraction(1, 10**9)
+    wm = np.repeat(w, size) if len(w) == 1 else w
+    if len(wm) != len(p):
+        return False
+    if v["kind"] == "wsum":
+        S = sum(Fraction(float(x)) for x in wm)
+        if mode_m == "Times4Pi":
+            return 4 * PI_LO * abs(S - 1) > tol
+        return S - 4 * PI_HI > tol or S - 4 * PI_LO < -tol
+    if v["kind"] == "lm":
+        k2, _ = exact_lm(p, wm, v["l"], v["m"])
+        if mode_m == "Times4Pi":
+            return 16 * PI_LO * k2 > tol * tol
+        return k2 > PI_HI * tol * tol
+    return False
 
 
 def sweep_one(job):
@@ -500,6 +562,9 @@ def run(ctx: Ctx):
             else:
                 chk = None
             work = size * ((v["l"] if v["kind"] == "lm" else 0) + 1)
+            if chk is not None and work <= REFUTE_MAX and not model_predicts(v, p, w, mode[meth], size):
+                ctx.notes.append(f"{fname}: the violation observed on AngularGrid is not a violation of the model (file + normalisation rule): no kernel refutation")
+                chk = None
             if chk is not None and work <= REFUTE_MAX:
                 txt = (GRID_HDR + data + f"Theorem {name} : {chk} = true.\nProof. vm_cast_no_check (eq_refl true). Qed.\n")
                 txt2 = (GRID_HDR.replace("C02_model C02_gen", f"C02_model C02_gen C02_sums C02_proofs C02_refuted_{tag}") +
@@ -673,6 +738,9 @@ def run(ctx: Ctx):
             ctx.notes.append(f"kernel refutation {name} not finished within the per-file time limit (the finding itself is reported by the oracle)")
             continue
         ctx.add_obligation(name, ok, n)
+        # the positive obligation grid_exact_<tag> is decided by its kernel-checked refutation (core.mark_refuted)
+        if ok and name.endswith("_refuted"):
+            ctx.mark_refuted(f"grid_exact_{key[0]}_{key[1]}", name)
     phase["refute"] = round(time.time() - t_ph, 1)
     ctx.cov["refuted_in_kernel"] = sorted(name for _, (_, name, _) in refuted_files.items())
 
